@@ -62,6 +62,14 @@ class Sig:
             ",".join(str(NUM[p]) for p in self.pos), ",".join(str(NUM[p]) for p in self.norm), self.ndef,
             "90" if self.var else "-", ",".join(f"{NUM[k]}:{int(d)}" for k, d in self.kws), "91" if self.kwv else "-")
 
+    def model_as_compiled(self) -> str:
+        """the signature as the compiled wrapper treats it: positional-only parameters are ordinary ones
+        (`Sig.asCompiled` in Props/C05.lean)"""
+        allp = self.pos + self.norm
+        return "%s;%s;%d;%s;%s;%s" % (
+            "", ",".join(str(NUM[p]) for p in allp), self.ndef,
+            "90" if self.var else "-", ",".join(f"{NUM[k]}:{int(d)}" for k, d in self.kws), "91" if self.kwv else "-")
+
     def key(self):
         return (len(self.pos), len(self.norm), self.ndef, self.var, tuple(d for _, d in self.kws), self.kwv)
 
@@ -239,9 +247,11 @@ def run(ctx: Ctx, pool, col=None):
     fut = pool.submit(compile_ext, d, ["c05bind.py"], opt)
     # the model on the same pairs, meanwhile
     mlines = [f"{chosen[i].model()} | {' '.join(ATOM_MODEL[a].replace('d1,2', 'd1,2') for a in c)}" for i, c in pairs]
-    mout = ctx.lean_driver("Driver/C12Bind.lean", mlines)
-    if len(mout) != len(mlines):
+    acts = [' '.join(ATOM_MODEL[a] for a in c) for _, c in pairs]
+    mboth = ctx.lean_driver("Driver/C12Bind.lean", mlines + [f"{chosen[i].model_as_compiled()} | {a}" for (i, _), a in zip(pairs, acts)])
+    if len(mboth) != 2 * len(mlines):
         raise ToolFailure("Driver/C12Bind: wrong number of output lines")
+    mout, mcomp = mboth[:len(mlines)], mboth[len(mlines):]
     yield
     ok, log, secs = fut.result()
     if not ok:
@@ -258,8 +268,14 @@ def run(ctx: Ctx, pool, col=None):
     ndiff = nmsg = 0
     reported = set()
     model_diffs = []
+    model_bad = []
     for k, ((i, c), ml) in enumerate(zip(pairs, mout)):
         interp, comp = res[k]
+        # K: the compiled wrapper vs the model of what the code does (CPython's binding of the signature with the
+        # positional-only marker dropped)
+        mc = re.search(r"py=(\S+)", mcomp[k])
+        if mc is not None and mc.group(1) != "unknown" and (mc.group(1) != "ok") != comp.startswith("exc TypeError"):
+            model_bad.append((chosen[i], c, comp, mcomp[k]))
         s = chosen[i]
         ctx.case(("B", s.key(), c), nontrivial=bool(c))
         ctx.count("traces_validated_against_impl")
@@ -306,6 +322,13 @@ def run(ctx: Ctx, pool, col=None):
                         f"CPython {interp[:120]}",
                    {"kind": "bind", "signature": s.text(), "ret": s.ret(), "call": call_text(c), "caller": "native", "opt": opt,
                     "compiled": comp, "cpython": interp})
+    ctx.coverage["bind_compiled_vs_model_of_compiled_disagreements"] = len(model_bad)
+    if model_bad and not ctx.violations:
+        sg, c, comp, ml = model_bad[0]
+        violation_nf(ctx, "bind-model", f"compiled wrapper of `def f({sg.text()})` called f({call_text(c)}) gives {comp[:100]}, the model of "
+                     f"the compiled binding (PyBind on Sig.asCompiled) says {ml}; every difference from CPython seen is a listed one",
+                     {"broken": "correspondence compiled wrapper vs PyBind.pyCall ∘ asCompiled", "kind": "bind",
+                      "signature": sg.text(), "ret": sg.ret(), "call": call_text(c), "caller": "interpreted", "opt": opt})
     ctx.coverage["bind_calls_from_interpreted"] = len(pairs)
     ctx.coverage["bind_calls_native"] = len(keep)
     ctx.coverage["bind_differences_interpreted_caller"] = ndiff
